@@ -33,7 +33,8 @@ TaskPalette == { Task(kind, TRUE, dem, <<Place(Idx(1), "pos", FALSE, <<>>)>>) : 
 FamDemand == { [Base EXCEPT !.jobs[1].tasks = ts] : ts \in SeqsUpTo(TaskPalette, 2) }
              \cup { [Base EXCEPT !.jobs[1].tasks = <<a, a, b>>] : a \in { t \in TaskPalette : t.kind = "pickup" /\ t.hasDemand }, b \in { t \in TaskPalette : t.kind = "delivery" } }
 \* ---- E1100 / E1104: job ids
-IdPalette == {"job1", "job2", "departure", "arrival", "break", "reload"}
+\* "recharge" and "dispatch" look like the reserved words but are not among the four the documentation reserves
+IdPalette == {"job1", "job2", "departure", "arrival", "break", "reload", "recharge", "dispatch"}
 FamIds == { [Base EXCEPT !.jobs[1].id = a, !.jobs[2].id = b] : a, b \in IdPalette }
 \* ---- E1106: durations
 FamDuration == { [Base EXCEPT !.jobs[1].tasks = << [Plain(kind, 1) EXCEPT !.places[1].dur = dur] >>] :
@@ -77,7 +78,8 @@ RelVehicles == << Vehicle("vt1", <<"v1">>, "car", <<Shift(8, TRUE, 18)>>),
                   Vehicle("vt3", <<"v3">>, "car", << [Shift(8, TRUE, 18) EXCEPT !.hasBreaks = TRUE, !.breaks = <<Brk("req-exact", 10, 11, 1)>>] >>) >>
 Rel(type, vehicle, sh, jobs) == [type |-> type, vehicle |-> vehicle, hasShift |-> sh[1], shift |-> sh[2], jobs |-> jobs]
 RelJobLists == { <<"job1">>, <<"job1", "job2">>, <<>>, <<"departure">>, <<"departure", "job1", "arrival">>, <<"job1", "break">>, <<"reload", "job2">>,
-                 <<"jobX">>, <<"job3">>, <<"job3", "job3">>, <<"job1", "job1">>, <<"job4">>, <<"job5", "job1">>, <<"break", "reload">> }
+                 <<"jobX">>, <<"job3">>, <<"job3", "job3">>, <<"job1", "job1">>, <<"job4">>, <<"job5", "job1">>, <<"break", "reload">>,
+                 <<"job1", "recharge">>, <<"recharge">>, <<"dispatch", "job1">> }
 RelSingles == { Rel(t, v, sh, js) : t \in {"any", "sequence", "strict"}, v \in {"v1", "v2", "v3", "vX"},
                                     sh \in { <<FALSE, 0>>, <<TRUE, 0>>, <<TRUE, 1>>, <<TRUE, 2>> }, js \in RelJobLists }
 RelPairsOf == { Rel(t, v, <<FALSE, 0>>, js) : t \in {"any", "strict"}, v \in {"v1", "v2"}, js \in { <<"job1">>, <<"job2">>, <<"job1", "job2">>, <<"departure", "job1">> } }
